@@ -38,6 +38,11 @@ def make(check, self_inputs=False, budget_quick=60, budget_thorough=1500, tasks=
                     inp["transform"]["shift"] = str(Fr(2) ** rng.choice([12, 14, 16]) + Fr(rng.randint(0, 31), 32))
                 if rng.random() < 0.15:
                     inp["fresh"] = True      # scored as the first call after the library's module state is reset
+                if rng.random() < 0.15:
+                    # scored through the same array / list objects as an earlier call, updated in place in between
+                    inp["recycle"] = rng.choice(["labels", "scale", "both"])
+                    if rng.random() < 0.5:
+                        inp["direct"] = True     # tasks that know how: entries from the public metric functions one by one
                 yield inp
         checkers[site] = chk
         oracles[site] = gen
